@@ -215,3 +215,20 @@ Proof. eexists. eexists. split; [vm_compute; reflexivity|]. split; [vm_compute; 
 Example ex_scalar_condition_rejected :
   exists e es, run_ex "{ i ... on Int { i } }" "" [] = PInvalid e es.
 Proof. eexists. eexists. vm_compute. reflexivity. Qed.
+
+(** [es_wf] is a real check: an object type whose field is covariant with the field of the interface
+    it declares passes; one whose field returns a type that is not a possible type of the
+    interface's field type does not (ObjectType.satisfyInterface refuses such a schema) *)
+Definition ex_ES_iface (child_of_A : string) : ExeA.ArgData.schema :=
+  {| ExeA.ArgData.types :=
+       [ (n "Int", ExeA.ArgData.NScalar ExeA.ArgData.KInt);
+         (n "Query", ExeA.ArgData.NObject [ (n "node", ExeA.ArgData.StNamed (n "Node")) ] []);
+         (n "Node", ExeA.ArgData.NInterface [ (n "child", ExeA.ArgData.StNamed (n "Node")) ]);
+         (n "A", ExeA.ArgData.NObject [ (n "child", ExeA.ArgData.StNamed (n child_of_A)) ] [n "Node"]);
+         (n "B", ExeA.ArgData.NObject [ (n "i", ExeA.ArgData.StNamed (n "Int")) ] []) ];
+     ExeA.ArgData.query := n "Query"; ExeA.ArgData.mutation := None; ExeA.ArgData.subscription := None;
+     ExeA.ArgData.s_inputs := []; ExeA.ArgData.s_dt := []; ExeA.ArgData.s_argdefs := [] |}.
+Example ex_es_wf_covariant : es_wf (ex_ES_iface "A") = true /\ es_wf (ex_ES_iface "Node") = true.
+Proof. split; vm_compute; reflexivity. Qed.
+Example ex_es_wf_not_covariant : es_wf (ex_ES_iface "B") = false.
+Proof. vm_compute. reflexivity. Qed.
